@@ -14,6 +14,21 @@ CLAIMED = {
  "C14": ("bounded model checking (Kani/CBMC+CaDiCaL) of BytesRef::try_from / ref_from_slice for four header kinds on symbolic sub-slices vs. precedence oracle; full-width rounding lemma",
          "All slices buf[a..a+len], a in 0..8, len<=40, all contents and declared sizes: error precedence, address identity, payload extent and bytes, size_of_val == round8(declared) <= len; object-bounds checks of the model catch any view past the slice.",
          "dev-profile semantics; slice <= 40 bytes; enumerated header fields hold defined values"),
+ "C01": ("bounded model checking (Kani/CBMC+CaDiCaL): region = one exact-size symbolic memory object, CBMC pointer/bounds checks + extent assertions, unwinding assertions for termination",
+         "Fully symbolic 48..80-byte regions (all tag types/sizes/orders that fit) through load, the tag walk and each typed getter with all accessors; exact-size single-tag objects for RSDP, EFI map; every read outside the object or slice outside its tag is a failed check; controlled panics allowed.",
+         "dev-profile semantics; regions <= 80 bytes (VBE 800 in thorough); ELF sections via hook/mirse; Debug formatters only in the thorough tier; string accessors bounded as in C17"),
+ "C03": ("bounded model checking (Kani/CBMC+CaDiCaL): lock-step comparison of TagIter with a spec walk written in the harness over fully symbolic regions",
+         "All tag sequences in 48-byte (thorough: 32/64) regions: address identity, stored type/size, payload extent, end at region end, exhaustion, clone/fresh-iterator agreement, module iterator = type-3 subsequence; non-tiling walks must panic (NORETURN + reachable panic).",
+         "dev-profile semantics; region <= 64 bytes (<= 7 tags)"),
+ "C05": ("bounded model checking (Kani/CBMC+CaDiCaL): fat-pointer metadata and accessor extents of every DST kind vs. (size - fixed)/elem for symbolic sizes",
+         "Declared size 8..72 for each variable-length kind of both crates (ELF: see C19): element count, start offset, size_of_val == round8(size); sizes below the fixed part or with a remainder must panic.",
+         "dev-profile semantics; size <= 72; ElfSectionsTag not compilable by Kani (layout ICE) - handled in C19"),
+ "C15": ("bounded model checking (Kani/CBMC+CaDiCaL) of DynSizedStructure::cast / get_tag for a family of user-defined sized and DST tag types and all built-in kinds with symbolic tag size",
+         "22 user-defined types (sized +0..6 words; DST fixed 8/16/24 x elem 1,2,3,4,8,24; raw 4-aligned form fixed 8/12/20) and the built-in kinds, tag size 8..96: cast panics or returns same address with size_of_val == round8(size); fields alias the tag bytes.",
+         "dev-profile semantics; 8-aligned DSTs with fixed part 12/20 cannot be compiled by Kani (ICE) and are not covered; known finding K01 (transient dangling reference inside cast)"),
+ "C18": ("bounded model checking (Kani/CBMC+CaDiCaL) of the EFI memory-map iterator with symbolic descriptor size, version, map length and contents; exact-size object for bounds",
+         "d in 0..=128, L in 0..=96 (thorough 200): accepted combinations yield exactly L/d descriptors at offset i*d with decoded fields and exact len()/size_hint(); all other combinations must panic; produced descriptors are aligned and inside the tag.",
+         "dev-profile semantics; map <= 200 bytes"),
  "C20": ("bounded model checking (Kani/CBMC+CaDiCaL) with full-width symbolic u32 inputs (no loops)",
          "All 2^32 (pairs of) values: conversions round-trip, named variants exactly for the specified numbers, id wrapper commutes, all PartialEq directions equal numeric equality; all 256 framebuffer type bytes; magic constants.",
          "dev-profile semantics; ELF section-type classification via the cfg(multiboot2_verif) hook"),
